@@ -187,10 +187,12 @@ func workC19(res *WorkerResult, start time.Time) {
 			os.MkdirAll(*flagReplayDir, 0755)
 			writeJSON(filepath.Join(*flagReplayDir, fmt.Sprintf("raw-C19-%d-%d.json", *flagSeed, run)), &ReplayFile{Property: "C19", Violation: v, Seed: *flagSeed, Run: run, Tags: *flagTags, C19: c})
 		}
+		confirmGC = true // from here on finalizers of the library's own temporaries run only once the real collector agrees
 		mc, mv := minimiseC19(c, v, 400)
 		// replay check in-process: the minimised case must fail the same way twice
 		cc := &C19Case{Seed: mc.Seed, Config: mc.Config, Program: append([]Op(nil), mc.Program...)}
 		rv, _ := execC19(cc, nil)
+		confirmGC = false
 		if rv == nil || !rv.Same(mv) {
 			// A mismatch that does not recur when the same program and seeds are executed again is not a
 			// replayable violation and is not reported as one. Every instance analysed so far was the
@@ -237,6 +239,7 @@ func doReplay(path string) int {
 		return 2
 	}
 	var v *Violation
+	confirmGC = true
 	switch {
 	case rf.C19 != nil:
 		if *flagVerbose {
